@@ -173,11 +173,12 @@ def check(ctx: Ctx) -> None:
         if not ok:
             ob.violation(h, h.node, "_channel_exec does not schedule the payload on the channel with the received id")
         fr = repo.func(f"{GB}.Message.received")
-        subs = [n for n in repo.own_nodes(fr) if isinstance(n, ast.Subscript) and "_types" in unparse(n)]
-        if not any(unparse(s) == "self._types[self.msgcode][1]" for s in subs):
+        from ..util import xtext as _xt
+        disp = [_xt(repo, fr, c.func) for c in repo.calls_in(fr) if "_types" in _xt(repo, fr, c.func)]
+        if not any(d.startswith("self._types[self.msgcode]") and (d.endswith("[1]") or d.endswith(".handler")) for d in disp):
             ob.violation(fr, fr.node, "Message.received does not dispatch on its own msgcode")
-        hc = [c for c in repo.calls_in(fr) if isinstance(c.func, ast.Name)]
-        if len(hc) != 1 or [unparse(a) for a in hc[0].args] != ["self", "gateway"]:
+        hc = [c for c in repo.calls_in(fr) if "_types" in _xt(repo, fr, c.func)]
+        if len(hc) != 1 or [unparse(a) for a in hc[0].args] != [fr.params()[0], fr.params()[1]]:
             ob.violation(fr, fr.node, "Message.received does not call the handler exactly once with (message, gateway)")
         # every code some _send site uses has a handler; payload encoding agrees
         sites = send_sites(repo)
